@@ -11,11 +11,13 @@ UTC = datetime.timezone.utc
 QUICK_WINDOW = (datetime.date(2019, 12, 20), datetime.date(2021, 3, 10))
 QUICK_N = list(range(0, 10)) + list(range(27, 34)) + list(range(59, 63))
 THOROUGH_N = list(range(0, 10)) + list(range(28, 32))
-START_TIMES = [(0, 0), (9, 15), (14, 30)]
+# the last two carry seconds / a sub-second part (a start derived from now(), or 'end minus a year'): every event
+# must still fall on the whole documented minute
+START_TIMES = [(0, 0), (9, 15), (14, 30), (9, 15, 30), (0, 0, 0, 250000)]
 
 
 def ts(d, hm):
-    return pd.Timestamp(datetime.datetime(d.year, d.month, d.day, hm[0], hm[1]), tz='UTC')
+    return pd.Timestamp(datetime.datetime(d.year, d.month, d.day, *hm), tz='UTC')
 
 
 def start_dates(tier):
@@ -209,7 +211,7 @@ def future_items(tier):
 
 def run(tier, res, is_known):
     its = calendar_items(tier)
-    res.rule = ('every start date of the window x range lengths n x start time {00:00, 09:15, 14:30} x end time {same, '
+    res.rule = ('every start date of the window x range lengths n x start time {00:00, 09:15, 14:30, 09:15:30, 00:00:00.25} x end time {same, '
                 '23:59} x 4 pre/post flag combinations: the real engine is iterated and compared event by event with '
                 'an independent datetime.date calendar; plus end < start refusals; transitions = clock events '
                 'compared; distinct = (weekday of start, length, number of events) shapes')
